@@ -18,6 +18,7 @@ class Context:
         self._loop_depth = 0
         self._in_matrix = False
         self._in_routine = False
+        self._routine_names = set()
 
     def __contains__(self, name) -> bool:
         return name in self._locals or name in self._globals
@@ -31,6 +32,7 @@ class Context:
         self._locals.clear()
         self._loop_stack.clear()
         self._outer_loops = None
+        self._routine_names.clear()
 
     def enter_routine(self) -> None:
         self._in_routine = True
@@ -80,6 +82,11 @@ class Context:
 
     def add_routine(self, routine) -> None:
         self._globals.add_symbol(routine.name, SymbolType.ROUTINE, routine)
+        self._routine_names.add(routine.name)
+
+    def routine_was_defined(self, name) -> bool:
+        # Also after the name has since been given to a variable.
+        return name in self._routine_names
 
     def add_variable(self, name, value=None) -> None:
         dest = self._locals if self._in_routine else self._globals
